@@ -106,10 +106,11 @@ def install():
     if _installed:
         return
     import importlib
-    for name in _MODULES:
-        mod = importlib.import_module(name)
+    mods = [importlib.import_module(name) for name in _MODULES]      # import everything first ...
+    if "true" not in _orig:
+        _orig["true"] = U.create_rng                                  # ... the library's own factory
+    for mod in mods:
         if hasattr(mod, "create_rng"):
-            _orig[name] = mod.create_rng
             mod.create_rng = lambda seed: RecRNG(seed)
     _installed = True
 
@@ -117,6 +118,8 @@ def install():
 def uninstall():
     global _installed
     import importlib
-    for name, f in _orig.items():
-        importlib.import_module(name).create_rng = f
+    for name in _MODULES:
+        mod = importlib.import_module(name)
+        if hasattr(mod, "create_rng"):
+            mod.create_rng = _orig["true"]
     _installed = False
